@@ -49,6 +49,8 @@ pub struct World {
     pub own_head: Vec<u64>,
     /// reference copy of every acknowledged version, taken at the origin right after commit
     pub origin_log: Vec<BTreeMap<u64, (Vec<Change>, u64, klukai_types::broadcast::Timestamp)>>,
+    /// announcements held back: (node, version, what the transaction committed)
+    pub held: Vec<(usize, u64, Vec<Change>)>,
     pub pool: Pool,
     pub delivered: Vec<BTreeSet<MsgKey>>,
     key_counts: BTreeMap<String, u32>,
@@ -147,6 +149,7 @@ impl World {
             model: vec![NodeModel::default(); n],
             own_head: vec![0; n],
             origin_log: vec![BTreeMap::new(); n],
+            held: vec![],
             pool: Pool::new(),
             delivered: vec![BTreeSet::new(); n],
             key_counts: BTreeMap::new(),
@@ -303,7 +306,8 @@ impl World {
 
     async fn exec_inner(&mut self, ev: &Event) -> StepRes {
         match ev {
-            Event::Write { node, stmts } => self.ev_write(*node, stmts).await,
+            Event::Write { node, stmts, hold } => self.ev_write(*node, stmts, *hold).await,
+            Event::ReleaseAnnouncements => self.ev_release_announcements().await,
             Event::Deliver { node, msgs } => self.ev_deliver(*node, msgs.clone()).await,
             Event::DeliverAll { node, batch } => {
                 if !self.live(*node) {
@@ -412,6 +416,7 @@ impl World {
             Event::Crash { node, lose_outbox } => self.ev_crash(*node, *lose_outbox).await,
             Event::Restart { node } => self.ev_restart(*node).await,
             Event::Heal => {
+                tri!(self.ev_release_announcements().await);
                 self.healed = true;
                 // every down node comes back
                 for i in 0..self.n() {
@@ -428,7 +433,44 @@ impl World {
     // -----------------------------------------------------------------------
     // Write
 
-    async fn ev_write(&mut self, n: usize, stmts: &[Stmt]) -> StepRes {
+    /// Held-back announcements are made now: each must still tile its version and carry
+    /// exactly the rows of it that are live at this moment.
+    async fn ev_release_announcements(&mut self) -> StepRes {
+        klukai_types::verif::gate_release("bcast");
+        let held = std::mem::take(&mut self.held);
+        for n in 0..self.n() {
+            if self.live(n) {
+                self.node_mut(n).quiesce().await?;
+            }
+        }
+        for (n, v, reference) in held {
+            if !self.live(n) {
+                continue;
+            }
+            let all: Vec<(bool, ChangeV1)> = std::mem::take(&mut self.node_mut(n).outbox);
+            let (mine, rest): (Vec<_>, Vec<_>) = all.into_iter().partition(|(_, c)| c.actor_id == self.actors[n] && c.versions().start().0 == v);
+            self.node_mut(n).outbox = rest;
+            let live_now = {
+                let conn = self.read_conn(n).await?;
+                read_version_changes(&conn, self.actors[n], v)?
+            };
+            self.logln(format!("release announcement n{n} v{v}: chunks={} live={}/{}", mine.len(), live_now.len(), reference.len()));
+            if live_now.len() < reference.len() {
+                self.stats.fault("announcement-after-later-transactions-overwrote-rows");
+            }
+            if live_now.is_empty() {
+                self.stats.probe("announce.delayed.all-rows-overwritten");
+            }
+            tri!(super::oracle::check_announcement_of(self, n, v, &reference, &live_now, &mine));
+            for (_, c) in mine {
+                let k = self.add_msg(None, n, "b", c);
+                self.logln(format!("  -> {k}"));
+            }
+        }
+        Ok(Ok(()))
+    }
+
+    async fn ev_write(&mut self, n: usize, stmts: &[Stmt], hold: bool) -> StepRes {
         if !self.live(n) {
             self.logln(format!("write n{n}: node down, skipped"));
             return Ok(Ok(()));
@@ -441,7 +483,14 @@ impl World {
             .iter()
             .map(|s| stmt(&s.sql, s.params.iter().map(|p| p.to_param()).collect()))
             .collect();
+        if hold {
+            klukai_types::verif::gate_arm("bcast");
+        }
         let (status, resp) = self.node_mut(n).write(api_stmts, None).await?;
+        if hold {
+            // later announcements pass, the parked one stays parked
+            klukai_types::verif::gate_disarm("bcast");
+        }
         let outbox: Vec<(bool, ChangeV1)> = std::mem::take(&mut self.node_mut(n).outbox);
         let head_now = self
             .node(n)
@@ -480,9 +529,15 @@ impl World {
                         read_version_changes(&conn, self.actors[n], v)?
                     };
                     let last_seq = reference.last().map(|c| c.seq.0);
-                    tri!(super::oracle::check_announcement(
-                        self, n, v, &reference, &outbox
-                    ));
+                    let held_now = hold && outbox.is_empty() && klukai_types::verif::gate_parked("bcast") > 0;
+                    if held_now {
+                        self.stats.fault("announcement-held-back");
+                        self.held.push((n, v, reference.clone()));
+                    } else {
+                        tri!(super::oracle::check_announcement(
+                            self, n, v, &reference, &outbox
+                        ));
+                    }
                     // executable reference: the same statements on the shadow
                     if let Err(e) = self.shadows[n].local_tx(stmts)? {
                         return vio(
@@ -492,10 +547,19 @@ impl World {
                         );
                     }
                     self.own_head[n] = v;
-                    let ts = outbox
-                        .first()
-                        .and_then(|(_, c)| c.ts())
-                        .unwrap_or(klukai_types::broadcast::Timestamp::from(1u64));
+                    let ts = match outbox.first().and_then(|(_, c)| c.ts()) {
+                        Some(ts) => ts,
+                        None => {
+                            // (held back: the timestamp the announcement will carry is stored with the rows)
+                            let conn = self.read_conn(n).await?;
+                            conn.query_row(
+                                "SELECT MAX(ts) FROM crsql_changes WHERE site_id = ? AND db_version = ?",
+                                rusqlite::params![self.actors[n], v],
+                                |r| r.get::<_, klukai_types::broadcast::Timestamp>(0),
+                            )
+                            .unwrap_or(klukai_types::broadcast::Timestamp::from(1u64))
+                        }
+                    };
                     self.origin_log[n].insert(v, (reference.clone(), last_seq.unwrap_or(0), ts));
                     self.reference.merge(&reference)?;
                     for (_, c) in outbox {
@@ -1243,6 +1307,8 @@ impl World {
             return Ok(Ok(()));
         }
         self.stats.fault("crash");
+        // announcements of this incarnation that were still held back die with it
+        self.held.retain(|(hn, _, _)| *hn != n);
         let old = self.nodes[n].take().unwrap();
         self.incarnation[n] += 1;
         let new_dir = self.run_dir.join(format!("n{n}-{}", self.incarnation[n]));
@@ -1274,6 +1340,8 @@ impl World {
             return Ok(Ok(()));
         }
         self.stats.fault("graceful-restart");
+        // a graceful stop waits for the detached announcement tasks
+        tri!(self.ev_release_announcements().await);
         let old = self.nodes[n].take().unwrap();
         old.shutdown_graceful().await?;
         self.incarnation[n] += 1;
